@@ -32,6 +32,26 @@ pub mod stdspec {
         ensures a == b
     { admit(); }
 
+    // big-endian octets of fixed-width integers (u32::to_be_bytes / u64::to_be_bytes)
+    pub open spec fn be32(v: u32) -> Seq<u8> {
+        seq![(v >> 24) as u8, ((v >> 16) & 0xff) as u8, ((v >> 8) & 0xff) as u8, (v & 0xff) as u8]
+    }
+    pub open spec fn be64(v: u64) -> Seq<u8> {
+        be32((v >> 32) as u32) + be32((v & 0xffff_ffff) as u32)
+    }
+    // RW stand-ins for u32::to_be_bytes / u64::to_be_bytes (their std signature uses an anonymous const array length that
+    // assume_specification cannot name): ASSUMED to return the big-endian octets
+    #[verifier::external_body]
+    pub fn u32_be(v: u32) -> (r: [u8; 4])
+        ensures r@ == be32(v)
+    { v.to_be_bytes() }
+    #[verifier::external_body]
+    pub fn u64_be(v: u64) -> (r: [u8; 8])
+        ensures r@ == be64(v)
+    { v.to_be_bytes() }
+    pub assume_specification<T, const N: usize> [<[T; N] as AsRef<[T]>>::as_ref] (a: &[T; N]) -> (r: &[T])
+        ensures r@ == a@;
+
     // Rust language invariant: no slice is longer than isize::MAX octets
     pub broadcast proof fn axiom_slice_len_bound(s: &[u8])
         ensures #[trigger] s@.len() <= isize::MAX
